@@ -305,6 +305,13 @@ func Genesis(r *rng.R, n int) Result {
 					hist = append(hist, describeOp(op, pktInfo{}, o))
 				}
 			}
+			if cr.Chance(10) {
+				// identifiers of the free-form protocol made of bytes a JSON document cannot carry as they are
+				ids := []string{rng.Pick(cr, []string{"a\xffb", "\xc3\x28", "\xed\xa0\x80", "\xc0\xaf", "\xf5"}), "noble"}
+				op := world.Op{Kind: "msg", Msg: world.Msg{Kind: "PauseCrossChains", Signer: sim.Authority, ID: "PROTOCOL_INTERNAL", IDs: ids[:1+cr.Intn(2)]}}
+				o := wr.w.RunOp(ctx, op)
+				hist = append(hist, describeOp(op, pktInfo{}, o))
+			}
 			for i := 0; i < nops; i++ {
 				var op world.Op
 				if cr.Chance(50) {
@@ -358,6 +365,11 @@ func Genesis(r *rng.R, n int) Result {
 					mod.InitGenesis(ctxB, cdc, bz)
 				}()
 				_ = ctx2
+				// the module state as stored, byte for byte: what the JSON document cannot carry (bytes that are not
+				// valid UTF-8 in a string) would come back as something else
+				if a, b := wr.w.ObserveState(ctx), wr.w.ObserveState(ctxB); !a.V().Equal(b.V()) {
+					fail("reinitialised-state-differs", "the chain initialised from the exported genesis does not store the state the original chain stores: "+fmt.Sprint(b.V().JSON())+" instead of "+fmt.Sprint(a.V().JSON()))
+				}
 				for k := 0; k < 3; k++ {
 					pkt, info := g.genPacket()
 					if info.spec != nil && pkt.ICS != nil && info.spec.rawMem == nil {
